@@ -432,15 +432,16 @@ def run_rd_check(ctx, pid, test_name, files, mix, oracle, theorems, quick_n, tho
         all_cases = cases
         # the model covers volatile whole-payload flows; chunked flows and the durable-queue lane: oracle only
         cases = [c for c in all_cases if not c.get("chunk") and not c.get("durable")]
-        rc2, o2 = ctx.coq_eval("cases_" + pid, cases_v(cases, False))
+        # the model carries both registration rules of the producer controller (both proved): the repaired one
+        # (fix 22a84ff, fixes/C43-registration-demand.diff) is tried first, the earlier one is accepted as well
+        rc2, o2 = ctx.coq_eval("cases_" + pid, cases_v(cases, True))
         res = parse_summary(o2)
-        variant = "demandUpTo := currentSeq"
+        variant = "demandUpTo := min(demandUpTo, currentSeq)"
         if rc2 == 0 and res is not None and res[1] > 0:
-            # the model carries both registration rules (both proved); a tree with fixes/C43-registration-demand.diff follows the other one
-            rc3, o3 = ctx.coq_eval("cases_" + pid + "_fx", cases_v(cases, True))
+            rc3, o3 = ctx.coq_eval("cases_" + pid + "_old", cases_v(cases, False))
             res3 = parse_summary(o3)
             if rc3 == 0 and res3 is not None and res3[1] == 0:
-                rc2, o2, res, variant = rc3, o3, res3, "demandUpTo := min(demandUpTo, currentSeq)"
+                rc2, o2, res, variant = rc3, o3, res3, "demandUpTo := currentSeq"
         ctx.coverage["registration_demand_rule_observed"] = variant
         ctx.log("coq model evaluated on %d cases in %.1fs (%s)" % (len(cases), time.time() - t0, variant))
         if rc2 != 0 or res is None or res[0] != len(cases):
@@ -469,7 +470,8 @@ def run_rd_check(ctx, pid, test_name, files, mix, oracle, theorems, quick_n, tho
             ctx.notes.append("Coq obligation broken at %s; concrete failing input reported" % getattr(ctx, "failed_at", "?"))
 
     # ---- coverage
-    steps = sum(len(c["ops"]) for c in cases)
+    steps = sum(len(c["ops"]) for c in cases if not c.get("chunk") and not c.get("durable"))
+    oracle_only_steps = sum(len(c["ops"]) for c in cases if c.get("chunk") or c.get("durable"))
     hist, modes = {}, {}
     agg = {"dup": 0, "reorder": 0, "never": 0, "ticks": 0, "raw": 0}
     nontriv = set()
@@ -491,6 +493,7 @@ def run_rd_check(ctx, pid, test_name, files, mix, oracle, theorems, quick_n, tho
         "distinct_nontrivial": len(nontriv),
         "rule": "one evaluation = one step of a real controller's Receive compared with the Coq model (outgoing traffic per recipient + 30 state fields); "
                 "a case is non-trivial when the consumer confirmed >= 3 messages and the schedule contains >= 3 faults (duplicate / out-of-order / never delivered); distinct by (window, notify, ops)",
+        "oracle_only_steps_chunked_and_durable": oracle_only_steps,
         "cases": len(cases), "modes": modes, "op_histogram": hist, "faults": agg, "max_seq_reached": maxseq,
         "chunked_flow_cases_oracle_only": sum(1 for c in cases if c.get("chunk")),
         "durable_queue_cases_oracle_only": sum(1 for c in cases if c.get("durable")),
